@@ -335,10 +335,11 @@ class Report:
 def prop_files(prop):
     """properties/Cxx.v plus optional companion files properties/Cxx_*.v"""
     d = os.path.join(COQ, "properties")
+    listed = set(l.strip() for l in open(os.path.join(COQ, "_CoqProject")))
     res = []
     if os.path.isdir(d):
         for f in sorted(os.listdir(d)):
-            if f == prop + ".v" or (f.startswith(prop + "_") and f.endswith(".v")):
+            if (f == prop + ".v" or (f.startswith(prop + "_") and f.endswith(".v"))) and "properties/" + f in listed:
                 res.append(os.path.join(d, f))
     return res
 
@@ -385,7 +386,12 @@ FORBIDDEN = re.compile(r"\b(Admitted|admit|Axiom|Parameter|Conjecture|Admit Obli
 
 def scan_forbidden():
     bad = []
-    for f in all_files(COQ, ".v"):
+    # the development is what _CoqProject builds (plus the extraction script); files not listed there are not compiled
+    listed = [os.path.join(COQ, l.strip()) for l in open(os.path.join(COQ, "_CoqProject")) if l.strip().endswith(".v")]
+    listed.append(os.path.join(COQ, "extraction", "Extract.v"))
+    for f in listed:
+        if not os.path.exists(f):
+            continue
         txt = open(f).read()
         # strip comments (non-nested approximation is enough for our files)
         txt2 = re.sub(r"\(\*.*?\*\)", "", txt, flags=re.S)
